@@ -187,7 +187,7 @@ impl<'t, 'a> Un<'t, 'a> {
         let k = self.t.pick(18);
         // `let` only in block positions: a parenthesised block whose lines start left of the
         // enclosing block's column is not a layout gluon documents
-        let k = if !block && (k == 13 || k == 14 || (k == 15 && self.t.chance(1, 2))) { self.t.pick(13) } else { k };
+        let k = if !block && (k == 13 || k == 14 || k >= 16 || (k == 15 && self.t.chance(1, 2))) { self.t.pick(13) } else { k };
         match k {
             16 | 17 => {
                 // a match / if whose type is inferred without an expected type (function position,
@@ -239,11 +239,10 @@ impl<'t, 'a> Un<'t, 'a> {
                         Tm::Match(Box::new(m), vec![(Pat::Con("Some".into(), vec![Pat::Var(x)]), a), (Pat::Con("None".into(), vec![]), b)])
                     }
                 };
-                if self.t.chance(1, 3) {
-                    Tm::Tuple(vec![used, self.leaf(scope)])
-                } else {
-                    used
-                }
+                // (only at the start of a block line: a multi-line match further right on a line
+                // has its alternatives left of its own opening parenthesis, a layout gluon's
+                // offside rule does not accept everywhere)
+                used
             }
             0 => self.leaf(scope),
             1 | 2 => {
@@ -591,7 +590,14 @@ impl Property for C03 {
                 None => Verdict::Violation(format!("{}\nsource ({}):\n{}", what, source, src)),
             }
         };
+        let is_parse_error = |e: &str| e.contains("Unexpected token") || e.contains("Unexpected end of file") || e.contains("unexpected character");
         if let Some(e) = v["base"]["err"].as_str() {
+            if is_parse_error(e) {
+                // the printed concrete syntax is not the subject here (C08's): nothing is decided
+                j.classes.push("printed_program_does_not_parse".into());
+                j.verdict = Verdict::Inconclusive(format!("the printed program does not parse: {}", e.lines().take(3).collect::<Vec<_>>().join(" / ")));
+                return j;
+            }
             j.verdict = viol(format!(
                 "typable in the ML fragment with principal type `{}` but rejected by the checker:\n{}",
                 want, e
@@ -611,6 +617,13 @@ impl Property for C03 {
         for (name, what) in [("renamed", "renaming all bound variables"), ("unused", "adding an unused binding in front"), ("annotated", "annotating the expression with its printed type")] {
             let r = &v[name];
             if let Some(e) = r["err"].as_str() {
+                if name != "annotated" && (is_parse_error(e) || e.contains("std.monad.Monad")) {
+                    // longer names moved a line break: the renamed text is laid out differently
+                    // (two block lines read as a sequence); a printer artefact, nothing decided
+                    j.classes.push("variant_program_does_not_parse".into());
+                    j.verdict = Verdict::Inconclusive(format!("the {} variant does not parse as the same program", name));
+                    return j;
+                }
                 let extra = if name == "annotated" { format!("\nannotated source:\n{}", v["annotated_src"].as_str().unwrap_or("")) } else { String::new() };
                 j.verdict = viol(format!("{} makes the checker reject the program:\n{}{}", what, e, extra));
                 return j;
@@ -669,6 +682,44 @@ fn features(src: &str) -> Vec<String> {
         f.push("pattern_let".into());
     }
     f
+}
+
+/// canonical type text with the fields of every `{ .. }` sorted
+fn sort_rows(t: &str) -> String {
+    let cs: Vec<char> = t.chars().collect();
+    fn go(cs: &[char], i: &mut usize, close: Option<char>) -> String {
+        // reads up to the closing delimiter (consumed); inside braces the comma separated items
+        // are sorted
+        let mut items: Vec<String> = vec![String::new()];
+        while *i < cs.len() {
+            let c = cs[*i];
+            *i += 1;
+            if Some(c) == close {
+                break;
+            }
+            match c {
+                '{' => {
+                    let inner = go(cs, i, Some('}'));
+                    items.last_mut().unwrap().push_str(&format!("{{{}}}", inner));
+                }
+                '(' => {
+                    let inner = go(cs, i, Some(')'));
+                    items.last_mut().unwrap().push_str(&format!("({})", inner));
+                }
+                ',' if close == Some('}') => items.push(String::new()),
+                c => items.last_mut().unwrap().push(c),
+            }
+        }
+        if close == Some('}') {
+            let mut items: Vec<String> = items.iter().map(|x| x.trim().to_string()).collect();
+            items.sort();
+            items.join(", ")
+        } else {
+            items.concat()
+        }
+    }
+    let mut i = 0;
+    go(&cs, &mut i, None)
 }
 
 /// In a rendered diagnostic (`NN │ source line` followed by `   │   ^^^^`): is the text left of
@@ -825,7 +876,8 @@ fn error_features(what: &str) -> Vec<String> {
                 removed += 1;
             }
             closed.push_str(rest);
-            if removed > 0 && closed == want && !want.contains(" | ?") {
+            // the open row also loses the record's field order: compare rows as sets
+            if removed > 0 && sort_rows(&closed) == sort_rows(&want) && !want.contains(" | ?") {
                 f.push("closed_row_reported_open".into());
             }
         }
